@@ -424,6 +424,7 @@ struct Job
   MsgSpec spec;
   Built built;
   bool positive = true, mutate = true;
+  bool headerMutations = true; // first compression layout of a spec
   std::string label; // family / layout description (details only)
   QuerySpec q;
   Bytes kase; // "W:"+wire | "Q:"+text
@@ -474,6 +475,15 @@ static void evalPositive(const MsgSpec &spec, const Bytes &wire, const Bytes &ka
   if (!diff.empty())
   {
     CTR(C_POS_MISMATCH)++;
+    if (sig.size() > 8 && sig.compare(sig.size() - 8, 8, ".missing") == 0)
+    {
+      // which record lost its typed view?  qualify by the longest RDATA name of the records of that type
+      size_t mx = 0;
+      for (auto &r : spec.recs)
+        if (typeHasName(r.type))
+          mx = std::max(mx, std::max(wireLen(r.n1), r.type == T_SOA ? wireLen(r.n2) : size_t(0)));
+      sig += ":max-rdata-name-wire=" + std::to_string(mx);
+    }
     gViolation("decode-equals-generator", "mismatch:" + sig, kase, diff + " :: " + describe(spec) + " [" + label + "]");
     return;
   }
@@ -652,7 +662,8 @@ static void evalBatch(const std::vector<Job> &jobs, uint32_t startJob, uint32_t 
                     }
                     evalMutant(m, kase, desc);
                     g_shm->inCase = 0;
-                  });
+                  },
+                  j.headerMutations);
   }
 }
 
@@ -896,6 +907,7 @@ struct Gen
       j.spec = spec;
       j.built = bl.b;
       j.mutate = mutate;
+      j.headerMutations = n == 1;
       j.label = std::string(family) + " layout=" + odo.str();
       j.kase = "W:" + bl.b.wire;
       rep->distinct_nontrivial += spec.recs.empty() ? 0 : 1;
@@ -974,7 +986,7 @@ static void families(Gen &g, bool thorough)
                    "{a.b, root, a, b, 63-byte label, 255-byte name} with at most 2 long (>60 byte) names per message; default RDATA values; EVERY "
                    "compression layout (pointer targets: every earlier label start, earlier pointer (chains) and earlier root byte). Mutations for: "
                    "all-short-name messages") + (thorough ? "; " : " not using the name 'a'; ") +
-                   (thorough ? "all messages with 1 long name; messages with 2 long names of types A/CNAME/SOA whose other names are a.b"
+                   (thorough ? "messages with 1 long name whose other names are a.b / root; messages with 2 long names of types A/CNAME/SOA whose other names are a.b"
                              : "messages with 1 long name of types A/CNAME/SOA whose other names are a.b (quick)");
   for (uint16_t t : kTypes)
     for (auto &qn : SL)
@@ -992,7 +1004,10 @@ static void families(Gen &g, bool thorough)
             bool usesA = qn == SL[2] || ow == SL[2] || n1 == SL[2] || n2 == SL[2];
             bool rep3 = t == T_A || t == T_CNAME || t == T_SOA;
             bool othersAB = (isLong(qn) || qn == SL[0]) && (isLong(ow) || ow == SL[0]) && (isLong(n1) || n1 == SL[0]) && (isLong(n2) || n2 == SL[0]);
-            bool mutate = (nl == 0 && (thorough || !usesA)) || (nl == 1 && (thorough || (rep3 && othersAB))) || (nl == 2 && thorough && rep3 && othersAB);
+            auto abOrRoot = [&](const Name &x) { return isLong(x) || x == SL[0] || x == SL[1]; };
+            bool othersABRoot = abOrRoot(qn) && abOrRoot(ow) && abOrRoot(n1) && abOrRoot(n2);
+            bool mutate = (nl == 0 && (thorough || !usesA)) || (nl == 1 && (thorough ? othersABRoot : (rep3 && othersAB))) ||
+                          (nl == 2 && thorough && rep3 && othersAB);
             MsgSpec m = baseMsg(qn);
             RecSpec rec = defaultRec(t);
             rec.owner = ow;
@@ -1066,7 +1081,7 @@ static void families(Gen &g, bool thorough)
   r.bounds["P3"] = std::string("2 records: all 121 type pairs x sections {AN+AN") + (thorough ? ", AN+NS, NS+AR" : "") +
                    "}; names a.b / b; every layout over label-start targets; mutations for " + (thorough ? "all pairs" : "the 49 pairs over {A,AAAA,CNAME,MX,TXT,SOA,unknown} (quick)") + ". 3 records (AN+NS+AR): all 1331 type triples, names a.b / b / a; "
                    "layouts: per name and split point the most recent matching label start; mutations " +
-                   (thorough ? "for the 512 triples over {A,CNAME,MX,SRV,NAPTR,TXT,SOA,unknown}" : "for the 27 triples over {A,CNAME,TXT} (quick)");
+                   (thorough ? "for the 216 triples over {A,CNAME,MX,TXT,SOA,unknown}" : "for the 27 triples over {A,CNAME,TXT} (quick)");
   static const int secPairs[3][2] = {{0, 0}, {0, 1}, {1, 2}};
   for (uint16_t t1 : kTypes)
     for (uint16_t t2 : kTypes)
@@ -1088,7 +1103,7 @@ static void families(Gen &g, bool thorough)
       for (uint16_t t3 : kTypes)
       {
         auto in3 = [](uint16_t t) { return t == T_A || t == T_CNAME || t == T_TXT; };
-        auto in8 = [](uint16_t t) { return t != T_NS && t != T_PTR && t != T_AAAA; };
+        auto in8 = [](uint16_t t) { return t == T_A || t == T_CNAME || t == T_MX || t == T_TXT || t == T_SOA || t == T_UNK; };
         bool mutate = thorough ? (in8(t1) && in8(t2) && in8(t3)) : (in3(t1) && in3(t2) && in3(t3));
         MsgSpec m = baseMsg();
         RecSpec a = defaultRec(t1, 0), b = defaultRec(t2, 1), c = defaultRec(t3, 2);
@@ -1324,7 +1339,8 @@ int main(int argc, char **argv)
                       r.counters.erase("generated_messages");
                     r.bounds["mutations"] = "every truncation; every single-byte substitution over {00,01,3f,40,c0,ff}; each header count +1,-1,0xffff; "
                                             "pointer {self, forward, back-into-self, offset==size, 0x3fff, last byte, header} over every length/pointer/"
-                                            "terminator position of every name; mutual pointers over every pair of names; RDLENGTH in {0,len-1,len+1}";
+                                            "terminator position of every name; mutual pointers over every pair of names; RDLENGTH in {0,len-1,len+1}. Substitutions inside the 12 "
+                                            "header bytes and the count mutations are applied to the first compression layout of every spec only";
                     r.bounds["stall_detection_s"] = "10";
                   });
   return 0;
